@@ -2,3 +2,5 @@ import OlVerif.Props.C11
 #print axioms OlVerif.C11.transfList_length
 #print axioms OlVerif.C11.transfOptList_shape
 #print axioms OlVerif.C11.sig
+#print axioms OlVerif.C11.decorators_nest
+#print axioms OlVerif.C11.def_shape
